@@ -395,6 +395,7 @@ impl<'a> hb_ot_map_builder_t<'a> {
                 // hb_ot_layout_table_find_feature
                 for (table_index, table) in self.face.layout_tables() {
                     if let Some(idx) = table.features.index(info.tag) {
+                        let idx = first_feature_record(table, idx, info.tag);
                         feature_index[table_index] = Some(idx);
                         found = true;
                     }
@@ -610,6 +611,19 @@ impl<'a> hb_ot_map_builder_t<'a> {
 
         Some(())
     }
+}
+
+/// `RecordList::index` is a binary search: when several records of the FeatureList carry the tag
+/// (pan-CJK fonts have one 'vert' per language system) it lands on an arbitrary one of them.
+/// hb_ot_layout_table_find_feature takes the first: the first record with the tag up to `hit`.
+fn first_feature_record(
+    table: &ttf_parser::opentype_layout::LayoutTable,
+    hit: FeatureIndex,
+    tag: hb_tag_t,
+) -> FeatureIndex {
+    (0..hit)
+        .find(|&i| table.features.get(i).map(|f| f.tag) == Some(tag))
+        .unwrap_or(hit)
 }
 
 /// Verification hooks (compiled only with `--cfg rb_verif`).
